@@ -25,14 +25,14 @@ package tbls
 //@ loop 2 invariant len(poly) == int(threshold) && poly[0] == p
 
 //@ func (Herumi) RecoverSecret
-//@ props C08
+//@ props C08 C12
 //@ callreq id.SetDecString: a1 == strconv.Itoa(idx)
 //@ callreq pk.Recover: a1 == rawKeys && a2 == rawIDs && len(rawKeys) == len(shares) && len(rawIDs) == len(shares)
 //@ ensures r1 == nil ==> ncalls(id.SetDecString) == len(shares) && ncalls(kpk.Deserialize) == len(shares) && ncalls(pk.Recover) == 1 && ncalls(id.SetHexString) == 0
 //@ loop 1 invariant len(rawKeys) == $i && len(rawIDs) == $i && ncalls(id.SetDecString) == $i && ncalls(kpk.Deserialize) == $i && ncalls(pk.Recover) == 0 && ncalls(id.SetHexString) == 0
 
 //@ func (Herumi) RecoverPubkey
-//@ props C08
+//@ props C08 C12
 //@ callreq id.SetDecString: a1 == strconv.Itoa(idx)
 //@ callreq pk.Recover: a1 == rawKeys && a2 == rawIDs && len(rawKeys) == len(shares) && len(rawIDs) == len(shares)
 //@ ensures r1 == nil ==> ncalls(id.SetDecString) == len(shares) && ncalls(kpk.Deserialize) == len(shares) && ncalls(pk.Recover) == 1 && ncalls(id.SetHexString) == 0
@@ -93,11 +93,11 @@ package tbls
 //@ ensures r0 == res(0, impl.ThresholdSplit(secret, total, threshold)) && r1 == res(1, impl.ThresholdSplit(secret, total, threshold))
 
 //@ func RecoverSecret
-//@ props C08
+//@ props C08 C12
 //@ ensures r0 == res(0, impl.RecoverSecret(shares, total, threshold)) && r1 == res(1, impl.RecoverSecret(shares, total, threshold))
 
 //@ func RecoverPubkey
-//@ props C08
+//@ props C08 C12
 //@ ensures r0 == res(0, impl.RecoverPubkey(shares)) && r1 == res(1, impl.RecoverPubkey(shares))
 
 //@ func ThresholdAggregate
